@@ -164,6 +164,12 @@ func c04Run(c *vfCtx, cs c04Case) {
 		c.addSet("nontrivial", vfHashJSON(cs))
 	}
 	class := func() string {
+		for _, e := range cs.Entries {
+			if !standalone && !opaque && c02K1(e.Old, e.New) {
+				// K1: the old and the new value differ only by `---` vs `/-/-/-/` lines: stored identically, so no update happens
+				return "K1-escape-not-injective"
+			}
+		}
 		if !standalone && vfClassK2(m) {
 			return "K2-header-line-in-body"
 		}
